@@ -8,9 +8,9 @@ CONSTANTS
   DENSE = TRUE
   MAXCALLS = 3
   MAXROWS = 7
-  FAULTS = TRUE
+  FAULTS = FALSE
   CBDTS <- NoCb
-  Dev <- NoDev
+  Dev <- DevBisectAfterTurn
 SPECIFICATION Spec
 CONSTRAINT StateConstraint
 INVARIANT TypeOK
@@ -18,7 +18,6 @@ INVARIANT FirstRowIsInitial
 INVARIANT SegmentMonotone
 INVARIANT PiecesAreSteps
 INVARIANT QueriesAnsweredByContainingStep
-INVARIANT ScalarAndArrayQueriesAgree
 INVARIANT EventsAreRoots
 INVARIANT NoEventTwice
 PROPERTY EndsAtTarget
